@@ -50,7 +50,8 @@ def enabled(tree, meta):
         out.append((ops.create("", ["xxh64"], n=True), m2, cont))
         out.append((ops.create("", ["md5"], slash=True), m2, cont))   # ROOT/ as tab completion writes it
         if meta.get("pool") == "t":
-            for ps in (["*.tmp"], ["sub/"], ["x.tmp", "sub"]):
+            # (with a separator: anchored at the root - three levels deep, and a root-level twin of a deeper path)
+            for ps in (["*.tmp"], ["sub/"], ["x.tmp", "sub"], ["d/sub/t.tmp"], ["sub/s.txt", "sub/t.tmp"], ["*.tmp", "!x.tmp"]):
                 out.append((ops.create("", ["md5"], i=ps), m2, cont))
             if "d" in med:
                 out.append((ops.create("", ["md5"], i=["*.tmp"], sf=["d"]), m2, cont))
